@@ -7,6 +7,7 @@ import (
 	"net/netip"
 	"sort"
 	"testing"
+	"testing/synctest"
 	"time"
 
 	"github.com/mdlayher/corerad/internal/netstate"
@@ -65,6 +66,7 @@ func runMonitor(t *testing.T, sc monScenario) *monResult {
 			w.mu.Unlock()
 		}
 		run := w.start(m)
+		synctest.Wait() // let the task dial and start reading before the first event
 		cur := func() *simConn {
 			w.mu.Lock()
 			defer w.mu.Unlock()
